@@ -36,7 +36,8 @@ RULE = ("HDDDM with 1-4 features (Hellinger or a user divergence) and CDBD with 
         "feature_epsilons, feature_info, the reference content, both histograms of every feature; optional private: _lambda, _bins, _prev_distance. "
         "After (up to two) drifts per history a new detector is started on the drifted batch and compared with the running one on the later "
         "batches (state, counters, distance, epsilon, threshold, reference, feature_epsilons from the second batch of the epoch, feature_info on drift). "
-        "Non-trivial: at least one drift and at least one update after it; distinct by content.")
+        "Non-trivial: at least one drift and at least one update after it; distinct by content."
+        " Also: for DataFrame cases with >= 2 features a batch with the columns in another order must be refused (probed after the run).")
 SHARD = 6
 
 RUN = {"drifts": 0, "updates": 0, "exact_ties_eps_eq_beta": 0, "near_ties_1e-12": 0, "pow_exceptions": 0, "proxy_batches": 0,
